@@ -44,6 +44,38 @@ def _tok_class(cfg, hdr, tok, tok2, old=""):
     return "other"
 
 
+METHODS = {"GET", "HEAD", "POST", "PUT", "DELETE", "PATCH", "OPTIONS"}
+
+
+def _need_reduced(cfg, old=""):
+    """token classes sent with the methods a route does not accept"""
+    relayable = lambda t: "\n" not in t and "\r" not in t     # a line break is not a valid HTTP field value
+    extra = {"old-token"} if old != "" and old != cfg and relayable(old) else set()
+    if cfg == "":
+        return {"none", "empty", "any"} | extra
+    return ({"none", "empty", "exact", "other"} if relayable(cfg) else {"none", "empty", "other"}) | extra
+
+
+def _complete(per_target, cfg, old, want_formats):
+    """every method x every concrete path, with the full token grid on accepted methods, the reduced one otherwise"""
+    if not per_target:
+        return False
+    seen_methods = {k[0] for k in per_target}
+    paths = {k[1] for k in per_target}
+    if not METHODS <= seen_methods or (want_formats and len(paths) < 5):
+        return False
+    for m in METHODS:
+        for p in paths:
+            ks = [k for k in per_target if k[0] == m and k[1] == p]
+            if not ks:
+                return False
+            for k in ks:
+                need = _need(cfg, old) if k[2] and (m == "GET") else _need_reduced(cfg, old)
+                if not need <= per_target[k]:
+                    return False
+    return True
+
+
 RELOAD_CLASSES = {"other-token", "cleared", "whitespace-only"}
 CFG_CLASSES = {"empty", "ordinary", "whitespace-only", "outer-whitespace", "inner-whitespace", "long", "non-ascii"}
 
@@ -77,6 +109,7 @@ def _case_summary(c):
     cur = None
     nd = ne = nds = 0
     sec = 0
+    npx = [0]
     for l in c["lines"]:
         t = l.split(" ")
         if t[0] == "op" and t[1] == "reload":
@@ -85,7 +118,8 @@ def _case_summary(c):
             cur = None
         elif t[0] == "op":
             cfg, old, _ = phases[-1]
-            cur = ((_kv(t, "via") or "router", _dec(_kv(t, "tmpl"))), _dec(_kv(t, "path")),
+            meth = _kv(t, "m") or "GET"
+            cur = ((_kv(t, "via") or "router", _dec(_kv(t, "tmpl"))), (meth, _dec(_kv(t, "path")), (_kv(t, "dm") or "1") == "1"),
                    _tok_class(cfg, _kv(t, "hdr"), _dec(_kv(t, "tok")), _dec(_kv(t, "tok2")), old))
             sec = 0
         elif t[0] == "ext" and len(t) >= 5 and t[1] == "secrets":
@@ -97,6 +131,8 @@ def _case_summary(c):
                 nds += 1 if sec > 0 else 0
             elif _kv(t, "class") == "error":
                 ne += 1
+            elif _kv(t, "class") == "proxied":
+                npx[0] += 1
     return phases, nd, ne, nds
 
 
@@ -133,18 +169,15 @@ def custom(vc, spec, tier, seed, replay):
             cls, cls2 = _kv(hdr, "cls") or "?", _kv(hdr, "cls2") or "?"
             ok = bool(routes) and len(phases) == 2
             for cfg, old, per in phases:
-                need = _need(cfg, old)
-                ok = ok and all(
-                    ("router", r) in per and all(need <= classes for classes in per[("router", r)].values()) and
-                    ("{format}" not in r or len(per[("router", r)]) >= 5) for r in routes)
-                ok = ok and MW in per and all(need <= classes for classes in per[MW].values())
+                ok = ok and all(_complete(per.get(("router", r)), cfg, old, "{format}" in r) for r in routes)
+                ok = ok and _complete(per.get(MW), cfg, old, False)
             if ok:
                 complete[cls] = complete.get(cls, 0) + 1
                 reload_classes[cls2] = reload_classes.get(cls2, 0) + 1
                 for cfg, old, per in phases:
                     for k in per:
                         if k[0] == "router":
-                            paths.update(per[k])
+                            paths.update(x[1] for x in per[k])
             else:
                 incomplete += 1
     cov["exhaustive"] = bool(routes and CFG_CLASSES <= set(complete) and RELOAD_CLASSES <= set(reload_classes) and incomplete == 0
@@ -158,7 +191,8 @@ def custom(vc, spec, tier, seed, replay):
                             "{no header, empty, whitespace-only, exact, exact plus leading/trailing whitespace, trimmed variant, "
                             "proper prefix, extension, case variant, other, exact as second value} x configured token "
                             "{empty, ordinary, whitespace-only, leading/trailing whitespace, inner whitespace, very long, non-ASCII} "
-                            "x phase {before, after a reload of the token to another token / cleared / whitespace-only, with the rotated-out token "
+                            "x method {GET with the full token grid; HEAD, POST, PUT, DELETE, PATCH, OPTIONS with {absent, empty, exact, different, "
+                            "rotated-out}} x phase {before, after a reload of the token to another token / cleared / whitespace-only, with the rotated-out token "
                             "among the request tokens} x target {real router, one kept instance of the middleware built before the reload} "
                             "(request classes that do not exist for a configured token, e.g. a case variant of blanks, are not required)"}
     vc.write_evidence(spec["property"], ev)
@@ -202,5 +236,6 @@ SPEC = dict(
                  "endpoints follow a reload because mux rebuilds the middleware chain per matched request (gorilla/mux v1.8.1 "
                  "Router.Match) — observed through the real router, not assumed; the kept-instance comparison pins the closure's "
                  "own per-request lookup as a correspondence obligation (model comparison only, no monitor verdict)",
-                 "only GET is routed to the /query sub-router (other methods fall through to the proxy route, out of scope)"],
+                 "requests with a method the /query sub-router does not accept fall through to the proxy route (observed: relayed "
+                 "to a stub upstream whose answer carries a marker header and is not query data); the proxy's own behaviour is C37's"],
 )
